@@ -193,7 +193,7 @@ def _replay_search(a):
     if "[refit]" in a["label"]:
         # the deductive refutation of the refit variant is the known finding: reproduce it directly
         from persim.landscapes import PersistenceLandscaper
-        tr = PersistenceLandscaper()
+        tr = PersistenceLandscaper(hom_deg=0)
         X1, X2 = [np.array([[0.0, 3.0], [1.0, 4.0]])], [np.array([[2.0, 9.0], [5.0, 6.0]])]
         tr.fit(X1)
         tr.fit(X2)
@@ -226,7 +226,7 @@ def replay(doc):
     inp = doc["payload"].get("input", {})
     if "fits" in inp:
         from persim.landscapes import PersistenceLandscaper
-        tr = PersistenceLandscaper()
+        tr = PersistenceLandscaper(hom_deg=0)
         for X in inp["fits"]:
             tr.fit([np.array(X)])
         last = np.array(inp["fits"][-1])
